@@ -549,10 +549,7 @@ pub fn process_events(
     context: &mut TransformerContext,
 ) -> Result<(OutputList, Option<BoundingBox>)> {
     if is_real_svg(&input) {
-        if context.get_top_element().is_none() {
-            // if this is the outermost SVG element, we mark the entire input as a 'real' SVG document
-            context.real_svg = true;
-        }
+        // passed through as-is; whether the *document* is real SVG is decided by the caller
         return Ok((input.into(), None));
     }
     let mut output = OutputList::new();
@@ -587,6 +584,9 @@ impl Transformer {
     pub fn transform(&mut self, reader: &mut dyn BufRead, writer: &mut dyn Write) -> Result<()> {
         let input = InputList::from_reader(reader)?;
         self.context.set_events(input.events.clone());
+        // only the document as a whole can be a 'real' SVG document (no root synthesis, no
+        // auto-styles); a namespaced <svg> met further down is just passed through
+        self.context.real_svg = is_real_svg(&input);
         let output = process_events(input, &mut self.context)?;
         self.postprocess(output, writer)
     }
